@@ -9,6 +9,7 @@ import (
 	sdkerrors "github.com/cosmos/cosmos-sdk/types/errors"
 	govtypes "github.com/cosmos/cosmos-sdk/x/gov/types"
 
+	teletypes "github.com/teleport-network/teleport/types"
 	"github.com/teleport-network/teleport/x/aggregate/keeper"
 	"github.com/teleport-network/teleport/x/aggregate/types"
 )
@@ -46,7 +47,7 @@ func handleRegisterCoinProposal(ctx sdk.Context, k *keeper.Keeper, p *types.Regi
 	if err != nil {
 		return err
 	}
-	err = ctx.EventManager().EmitTypedEvent(&types.EventRegisterTokens{Denom: pair.Denoms, Erc20Token: pair.ERC20Address})
+	err = teletypes.EmitTypedEvent(ctx, &types.EventRegisterTokens{Denom: pair.Denoms, Erc20Token: pair.ERC20Address})
 	if err != nil {
 		return err
 	}
@@ -59,7 +60,7 @@ func handleAddCoinProposal(ctx sdk.Context, k *keeper.Keeper, p *types.AddCoinPr
 		return err
 	}
 
-	err = ctx.EventManager().EmitTypedEvent(&types.EventRegisterTokens{Denom: pair.Denoms, Erc20Token: pair.ERC20Address})
+	err = teletypes.EmitTypedEvent(ctx, &types.EventRegisterTokens{Denom: pair.Denoms, Erc20Token: pair.ERC20Address})
 	if err != nil {
 		return err
 	}
@@ -72,7 +73,7 @@ func handleRegisterERC20Proposal(ctx sdk.Context, k *keeper.Keeper, p *types.Reg
 		return err
 	}
 
-	err = ctx.EventManager().EmitTypedEvent(&types.EventRegisterTokens{Denom: pair.Denoms, Erc20Token: pair.ERC20Address})
+	err = teletypes.EmitTypedEvent(ctx, &types.EventRegisterTokens{Denom: pair.Denoms, Erc20Token: pair.ERC20Address})
 	if err != nil {
 		return err
 	}
@@ -86,7 +87,7 @@ func handleToggleRelayProposal(ctx sdk.Context, k *keeper.Keeper, p *types.Toggl
 		return err
 	}
 
-	err = ctx.EventManager().EmitTypedEvent(&types.EventRegisterTokens{Denom: pair.Denoms, Erc20Token: pair.ERC20Address})
+	err = teletypes.EmitTypedEvent(ctx, &types.EventRegisterTokens{Denom: pair.Denoms, Erc20Token: pair.ERC20Address})
 	if err != nil {
 		return err
 	}
@@ -100,7 +101,7 @@ func handleUpdateTokenPairERC20Proposal(ctx sdk.Context, k *keeper.Keeper, p *ty
 		return err
 	}
 
-	err = ctx.EventManager().EmitTypedEvent(&types.EventRegisterTokens{Denom: pair.Denoms, Erc20Token: pair.ERC20Address})
+	err = teletypes.EmitTypedEvent(ctx, &types.EventRegisterTokens{Denom: pair.Denoms, Erc20Token: pair.ERC20Address})
 	if err != nil {
 		return err
 	}
@@ -142,7 +143,7 @@ func handleEnableTimeBasedSupplyLimitProposal(ctx sdk.Context, k *keeper.Keeper,
 		return err
 	}
 
-	_ = ctx.EventManager().EmitTypedEvent(
+	_ = teletypes.EmitTypedEvent(ctx,
 		&types.EnableTimeBasedSupplyLimitProposal{
 			ERC20Address:   p.ERC20Address,
 			TimePeriod:     p.TimePeriod,
@@ -160,7 +161,7 @@ func handleDisableTimeBasedSupplyLimitProposal(ctx sdk.Context, k *keeper.Keeper
 		return err
 	}
 
-	_ = ctx.EventManager().EmitTypedEvent(
+	_ = teletypes.EmitTypedEvent(ctx,
 		&types.DisableTimeBasedSupplyLimitProposal{
 			ERC20Address: p.ERC20Address,
 		},
